@@ -417,8 +417,8 @@ def _total_derivative(path, e, xs, memo):
     for _k, (r_, rad_) in path.sqrt_atoms.items():
         defs[r_] = ('sqrt', rad_)
     for _k, (c_, s_, base_) in path.trig_atoms.items():
-        defs[c_] = ('cos', s_, base_)
-        defs[s_] = ('sin', c_, base_)
+        defs.setdefault(c_, ('cos', s_, base_))          # first registration = the angle the atoms were introduced for
+        defs.setdefault(s_, ('sin', c_, base_))
     for _k, ent in path.fun_atoms.items():
         defs[ent[0]] = ('fun', ent[1], ent[2])
     out = sp.diff(e, xs)
@@ -639,6 +639,9 @@ def _sign_knowledge(path, e):
     return frozenset(poss)
 
 
+ATOM_REDUCE_BUDGET_S = [20.0]
+
+
 def discharge(path, kind, payload, timeout_ms):
     """-> (status, backend, detail, seconds); status in proved|refuted|unknown"""
     t0 = time.time()
@@ -706,7 +709,7 @@ def discharge(path, kind, payload, timeout_ms):
                 except Exception:
                     pass
                 try:
-                    with P.time_limit(20):
+                    with P.time_limit(ATOM_REDUCE_BUDGET_S[0]):
                         red = P.atom_reduce(path, part)
                 except Exception:
                     red = None
@@ -758,6 +761,9 @@ def run_symbolic(ct, tier):
     samples = []
     wd = set()
     assumed = set()
+    import sys as _sys
+    kmap = getattr(_sys.modules.get(getattr(ct.fn, '__module__', ''), None), 'KNOWN', {}) or {}
+    known_full = {k for k, v in kmap.items() if v.get('role') == 'full'}
     for path, ctx, err in explore(ct, max_paths=ct.opts.get('max_paths', 600), ieee=ct.opts.get('ieee', False),
                                   prefix=ct.opts.get('prefix', ())):
         if err == 'infeasible':
@@ -781,7 +787,17 @@ def run_symbolic(ct, tier):
                 continue
             r = res.setdefault(cid, {'paths': 0, 'proved': 0, 'backends': {}, 'failed': [], 'seconds': 0.0})
             r['paths'] += 1
-            st, be, detail, dt = discharge(path, kind, payload, timeout_ms)
+            if cid in known_full:
+                # the unsplit clause of an open known finding is expected to fail: a short budget (it is proved by
+                # rewriting in well under a second once the defect is gone; a refutation only needs a model)
+                gb, ab = P.GROEBNER_BUDGET_S[0], ATOM_REDUCE_BUDGET_S[0]
+                P.GROEBNER_BUDGET_S[0], ATOM_REDUCE_BUDGET_S[0] = min(gb, 3.0), 3.0
+                try:
+                    st, be, detail, dt = discharge(path, kind, payload, min(timeout_ms, 8000))
+                finally:
+                    P.GROEBNER_BUDGET_S[0], ATOM_REDUCE_BUDGET_S[0] = gb, ab
+            else:
+                st, be, detail, dt = discharge(path, kind, payload, timeout_ms)
             solver_s += dt
             r['seconds'] += dt
             if st == 'proved':
